@@ -821,3 +821,174 @@ Proof. eexists. vm_compute. reflexivity. Qed.
 Example ex_slow_epoch_aligned_dense : exists st',
   tune ex_sqrt Sorted false ex_keys true (mkK 1 (Dense [[1]])) (Some ex_hist) = Some st'.
 Proof. eexists. vm_compute. reflexivity. Qed.
+
+(* ================================================================================================ *)
+(* 11. kernel sequence and engine: the history that reaches kernel i in a slow epoch is that epoch's *)
+(*     chain, whatever the other kernels are and whatever was recorded for earlier epochs           *)
+(* ================================================================================================ *)
+Local Close Scope string_scope.
+
+Lemma last_opt_app : forall {A} (l : list A) x, last_opt (l ++ [x]) = Some x.
+Proof.
+  intros A. induction l as [|y l IH]; intros x; [reflexivity|].
+  cbn [app]. specialize (IH x). destruct (l ++ [x]) eqn:E.
+  - destruct l; discriminate.
+  - cbn [last_opt]. exact IH.
+Qed.
+
+Lemma current_chain_app : forall store e h, current_chain (store ++ [(e, h)]) = Some h.
+Proof. intros. unfold current_chain. rewrite last_opt_app. reflexivity. Qed.
+
+Lemma lookup_restrict : forall keys k h,
+  In k keys -> lookup (fst k) (restrict keys h) = lookup (fst k) h.
+Proof.
+  intros keys k h Hin. induction h as [|[k' r] h IH]; [reflexivity|].
+  cbn [restrict filter fst].
+  destruct (existsb (fun k0 : pkey => String.eqb k' (fst k0)) keys) eqn:E.
+  - cbn [lookup]. destruct (String.eqb (fst k) k'); [reflexivity|exact IH].
+  - cbn [lookup]. destruct (String.eqb (fst k) k') eqn:Ek; [|exact IH].
+    apply String.eqb_eq in Ek. exfalso.
+    assert (Ht : existsb (fun k0 : pkey => String.eqb k' (fst k0)) keys = true).
+    { apply existsb_exists. exists k. split; [exact Hin|]. apply String.eqb_eq. now symmetry. }
+    congruence.
+Qed.
+
+Lemma agree_on_restrict : forall keys h, agree_on keys h (restrict keys h).
+Proof. intros keys h k Hk. symmetry. apply lookup_restrict. exact Hk. Qed.
+
+Theorem seq_tune_nth : forall sqrt_o o slow h ks ks' i p,
+  seq_tune sqrt_o o slow h ks = Some ks' -> nth_error ks i = Some p ->
+  exists p', kernel_tune sqrt_o o slow h p = Some p' /\ nth_error ks' i = Some p'.
+Proof. intros sqrt_o o slow h ks ks' i p H Hn. exact (mapM_nth _ _ _ _ _ H Hn). Qed.
+
+Lemma kernel_tune_mm : forall sqrt_o o slow h diag keys st p',
+  kernel_tune sqrt_o o slow h (KMM diag keys, st) = Some p' ->
+  exists st', p' = (KMM diag keys, st') /\ tune sqrt_o o diag keys slow st h = Some st'.
+Proof.
+  intros sqrt_o o slow h diag keys st p' H. unfold kernel_tune in H. cbn [fst snd] in H.
+  destruct (tune sqrt_o o diag keys slow st h) as [st'|]; [|discriminate].
+  injection H as <-. exists st'. split; reflexivity.
+Qed.
+
+Lemma has_mm_kernel : forall (ks : list (kern * kstate)) i diag keys st,
+  nth_error ks i = Some (KMM diag keys, st) ->
+  existsb (fun p => needs_history (fst p)) ks = true.
+Proof.
+  intros ks i diag keys st H. apply existsb_exists. exists (KMM diag keys, st).
+  split; [eapply nth_error_In; exact H|reflexivity].
+Qed.
+
+(* one adaptation epoch, seen from kernel i: tune with the chain recorded for this very epoch *)
+Theorem engine_epoch_kernel : forall sqrt_o o ks store e h ks' store' i diag keys st,
+  engine_epoch sqrt_o o ks store e h = Some (ks', store') ->
+  nth_error ks i = Some (KMM diag keys, st) ->
+  store' = store ++ [(e, h)] /\
+  exists st', nth_error ks' i = Some (KMM diag keys, st') /\
+    (if is_adaptation (e_type e)
+     then tune sqrt_o o diag keys (is_slow (e_type e)) st (Some h) = Some st'
+     else st' = st).
+Proof.
+  intros sqrt_o o ks store e h ks' store' i diag keys st H Hn.
+  unfold engine_epoch in H.
+  destruct (tune_kernels sqrt_o o ks (store ++ [(e, h)]) e) as [ks1|] eqn:Et; [|discriminate].
+  cbn [option_map] in H. injection H as <- <-. split; [reflexivity|].
+  unfold tune_kernels in Et. destruct (is_adaptation (e_type e)).
+  - rewrite (has_mm_kernel _ _ _ _ _ Hn), current_chain_app in Et.
+    destruct (seq_tune_nth _ _ _ _ _ _ _ _ Et Hn) as [p' [Hp Hn']].
+    destruct (kernel_tune_mm _ _ _ _ _ _ _ _ Hp) as [st' [-> Ht]].
+    exists st'. split; assumption.
+  - injection Et as <-. exists st. split; [exact Hn|reflexivity].
+Qed.
+
+(* a slow epoch: the kernel is tuned on this epoch's chain restricted to its own keys; nothing else
+   of the run (other kernels, their needs_history, chains and configs of earlier epochs) matters *)
+Theorem engine_slow_epoch_own_history : forall sqrt_o o ks store e h ks' store' i diag keys st,
+  engine_epoch sqrt_o o ks store e h = Some (ks', store') ->
+  e_type e = ESlow ->
+  nth_error ks i = Some (KMM diag keys, st) ->
+  exists st', nth_error ks' i = Some (KMM diag keys, st') /\
+    tune sqrt_o o diag keys true st (Some (restrict keys h)) = Some st' /\
+    tune_mm o diag keys (restrict keys h) = Some (imm st').
+Proof.
+  intros sqrt_o o ks store e h ks' store' i diag keys st H He Hn.
+  destruct (engine_epoch_kernel _ _ _ _ _ _ _ _ _ _ _ _ H Hn) as [_ [st' [Hn' Ht]]].
+  rewrite He in Ht. cbn [is_adaptation is_slow] in Ht.
+  exists st'. split; [exact Hn'|].
+  rewrite (own_keys_only sqrt_o o diag keys true st h (restrict keys h) (agree_on_restrict keys h)) in Ht.
+  split; [exact Ht|]. eapply slow_epoch_fresh. exact Ht.
+Qed.
+
+Lemma adapt_view_cons : forall e h r,
+  adapt_view ((e, h) :: r) =
+  if is_adaptation (e_type e) then (is_slow (e_type e), Some h) :: adapt_view r else adapt_view r.
+Proof. intros e h r. unfold adapt_view. cbn [filter fst]. destruct (is_adaptation (e_type e)); reflexivity. Qed.
+
+(* a whole schedule, seen from kernel i, is [run_epochs] over the adaptation epochs with their own chains *)
+Theorem engine_run_kernel : forall sqrt_o o eps ks store ks' store' i diag keys st,
+  engine_run sqrt_o o ks store eps = Some (ks', store') ->
+  nth_error ks i = Some (KMM diag keys, st) ->
+  exists st', nth_error ks' i = Some (KMM diag keys, st') /\
+    run_epochs sqrt_o o diag keys st (adapt_view eps) = Some st'.
+Proof.
+  intros sqrt_o o. induction eps as [|[e h] r IH]; intros ks store ks' store' i diag keys st H Hn.
+  - cbn in H. injection H as <- <-. exists st. split; [exact Hn|reflexivity].
+  - cbn [engine_run] in H.
+    destruct (engine_epoch sqrt_o o ks store e h) as [[ks1 store1]|] eqn:Ee; [|discriminate].
+    destruct (engine_epoch_kernel _ _ _ _ _ _ _ _ _ _ _ _ Ee Hn) as [_ [st1 [Hn1 Ht]]].
+    destruct (IH _ _ _ _ _ _ _ _ H Hn1) as [st' [Hn' Hr]].
+    exists st'. split; [exact Hn'|].
+    rewrite adapt_view_cons. destruct (is_adaptation (e_type e)).
+    + cbn [run_epochs]. rewrite Ht. exact Hr.
+    + subst st1. exact Hr.
+Qed.
+
+Lemma adapt_view_app : forall a b, adapt_view (a ++ b) = adapt_view a ++ adapt_view b.
+Proof. intros a b. unfold adapt_view. now rewrite filter_app, map_app. Qed.
+
+Lemma adapt_view_no_slow : forall post,
+  Forall (fun eh => e_type (fst eh) <> ESlow) post -> Forall no_retune (adapt_view post).
+Proof.
+  induction post as [|[e h] r IH]; intros H; [constructor|].
+  inversion H as [|? ? He Hr]; subst. rewrite adapt_view_cons.
+  destruct (is_adaptation (e_type e)); [|exact (IH Hr)].
+  constructor; [|exact (IH Hr)]. left. cbn [fst]. cbn [fst] in He.
+  destruct (e_type e); try reflexivity. congruence.
+Qed.
+
+(* after any schedule, the kernel's matrix is the one tuned from the chain of the last slow epoch -
+   also when that epoch's config equals an earlier epoch's, and wherever the kernel sits in the sequence *)
+Theorem engine_last_slow_epoch : forall sqrt_o o pre e h post ks store ks' store' i diag keys st,
+  engine_run sqrt_o o ks store (pre ++ (e, h) :: post) = Some (ks', store') ->
+  e_type e = ESlow ->
+  Forall (fun eh => e_type (fst eh) <> ESlow) post ->
+  nth_error ks i = Some (KMM diag keys, st) ->
+  exists st', nth_error ks' i = Some (KMM diag keys, st') /\
+    tune_mm o diag keys (restrict keys h) = Some (imm st').
+Proof.
+  intros sqrt_o o pre e h post ks store ks' store' i diag keys st H He Hp Hn.
+  destruct (engine_run_kernel _ _ _ _ _ _ _ _ _ _ _ H Hn) as [st' [Hn' Hr]].
+  exists st'. split; [exact Hn'|].
+  rewrite adapt_view_app, adapt_view_cons, He in Hr. cbn [is_adaptation is_slow] in Hr.
+  rewrite <- (own_keys_only_mm o diag keys h (restrict keys h) (agree_on_restrict keys h)).
+  eapply last_slow_epoch; [exact Hr|]. apply adapt_view_no_slow. exact Hp.
+Qed.
+
+(* non-vacuity: a non-history kernel first and in the middle, two slow epochs with equal configs *)
+Definition ex_kseq : list (kern * kstate) :=
+  [(KOther, mkK 1 (Diag [])); (KMM true [("a"%string, 1%nat)], mkK 1 (Diag [1]));
+   (KOther, mkK 1 (Diag [])); (KMM false [("z"%string, 1%nat)], mkK 1 (Dense [[1]]))].
+Definition ex_h (x y : Q) : history := [("z"%string, [[0]; [x]]); ("a"%string, [[0]; [y]])].
+Definition ex_sched : list (econf * history) :=
+  [(mkE EFast 2 1, ex_h 1 1); (mkE ESlow 2 1, ex_h 2 4)] ++
+  (mkE ESlow 2 1, ex_h 6 8) :: [(mkE EFast 2 1, ex_h 1 1); (mkE EPosterior 2 1, ex_h 1 1)].
+
+Example ex_engine_last_slow_epoch : exists ks' store' st',
+  engine_run (fun _ => 1) Sorted ex_kseq [] ex_sched = Some (ks', store') /\
+  nth_error ks' 1 = Some (KMM true [("a"%string, 1%nat)], st') /\
+  tune_mm Sorted true [("a"%string, 1%nat)] (restrict [("a"%string, 1%nat)] (ex_h 6 8)) = Some (imm st') /\
+  imm st' = Diag [Qred (32 + reg)].
+Proof.
+  eexists. eexists. eexists.
+  split; [vm_compute; reflexivity|]. split; [vm_compute; reflexivity|].
+  split; vm_compute; reflexivity.
+Qed.
